@@ -50,6 +50,10 @@ def make_trees(r, tier, names, fgs):
             trees.append(("library", T.random_tree(r, size, names=pool)))
         else:
             trees.append(("rootform", T.random_tree(r, size, root_names=list(T.ROOT_ONLY))))
+    # four substituents on a root and on an inner residue
+    four = T.Node("Man", [("a", 1, 2, T.Node("Gal")), ("a", 1, 3, T.Node("Fuc")), ("b", 1, 4, T.Node("Xyl")), ("b", 1, 6, T.Node("GlcNAc"))])
+    trees.append(("four", four))
+    trees.append(("four", T.Node("Glc", [("b", 1, 4, four)])))
     # N-glycosidic linkages explicitly
     for parent, pos in (("GlcN", 2), ("GalN", 2), ("Neu", 5), ("Glc6N", 6), ("GlcN", 2)):
         T.RES.setdefault("Neu", (2, (4, 7, 8, 9), (5,), "sia"))
